@@ -196,7 +196,8 @@ class Airplane:
             try:
                 self.q_to_stab = quat_conj(euler_to_quat([0.0, m.radians(alpha), 0.0]))
             except:
-                alpha = m.atan2(v_value[2], v_value[0])
+                v_rel = v_value-quat_trans(self.q, np.asarray(v_wind, dtype=float)) # Aerodynamic angles are relative to the local wind
+                alpha = m.atan2(v_rel[2], v_rel[0])
                 self.q_to_stab = quat_conj(euler_to_quat([0.0, alpha, 0.0]))
             self.w = quat_inv_trans(self.q_to_stab, w_raw)
 
@@ -204,8 +205,9 @@ class Airplane:
             try:
                 self.q_to_wind = quat_conj(euler_to_quat([0.0, m.radians(alpha), -m.radians(beta)]))
             except:
-                alpha = m.atan2(v_value[2], v_value[0])
-                beta = m.asin(v_value[1]/m.sqrt(v_value[0]**2+v_value[1]**2+v_value[2]**2))
+                v_rel = v_value-quat_trans(self.q, np.asarray(v_wind, dtype=float)) # Aerodynamic angles are relative to the local wind
+                alpha = m.atan2(v_rel[2], v_rel[0])
+                beta = m.asin(v_rel[1]/m.sqrt(v_rel[0]**2+v_rel[1]**2+v_rel[2]**2))
                 self.q_to_wind = quat_conj(euler_to_quat([0.0, alpha, -beta]))
             self.w = quat_inv_trans(self.q_to_wind, w_raw)
 
